@@ -35,7 +35,9 @@ pub fn check(t: &Trace<'_>, out: &mut CaseOut) -> bool {
         prev_pid = Some(msg.pid);
         let inuse: Vec<&OutMsg> = m.msgs[..i]
             .iter()
-            .filter(|o| o.epoch == msg.epoch && o.outstanding_at(msg.ev_call))
+            // (an exchange the client forgot after its PUBREC - no PUBREL slot - is still open at the
+            // broker, which holds the identifier until PUBREL/PUBCOMP)
+            .filter(|o| o.epoch == msg.epoch && (o.outstanding_at(msg.ev_call) || (o.dropped_ev.is_some_and(|d| d < msg.ev_call) && o.comp.is_none() && o.invalidated_ev.is_none_or(|e| e > msg.ev_call))))
             .collect();
         if !inuse.is_empty() {
             out.count("allocations_with_ids_in_use", 1);
